@@ -47,8 +47,18 @@ def constants_spec(draw):
 
 
 @st.composite
-def model_spec(draw, models=MODELS, dims=(2, 2, 2, 3), simplex=False, max_fracs=3):
+def model_spec(draw, models=MODELS, dims=(2, 2, 2, 3), simplex=False, max_fracs=3, nonmatching=False):
     model = draw(st.sampled_from(list(models)))
+    if nonmatching and model in ("mass_balance", "energy") and draw(st.integers(0, 2)) == 0:
+        # unit square, up to two orthogonal fractures, fracture and mortar grids refined independently
+        nf = draw(st.integers(1, 2))
+        fracs = sorted(draw(st.lists(st.integers(0, 1), min_size=nf, max_size=nf, unique=True)))
+        fluid, solid, compressible = draw(constants_spec())
+        return {"model": model, "dim": 2, "fracs": fracs, "cartesian": True, "fluid": fluid, "solid": solid,
+                "compressible": compressible, "dt": draw(st.sampled_from([0.1, 1.0, 10.0])),
+                "amp": draw(st.sampled_from([0.01, 0.1, 0.5])), "pseed": draw(st.integers(0, 2**31 - 1)),
+                "geom": "nonmatching", "frac_ratio": draw(st.integers(1, 3)), "intf_ratio": draw(st.integers(1, 3)),
+                "cell_size": draw(st.sampled_from([0.5, 0.25]))}
     dim = draw(st.sampled_from(list(dims)))
     nf = draw(st.integers(0, min(max_fracs, 3 if dim == 2 else 2)))
     fracs = sorted(draw(st.lists(st.integers(0, 2), min_size=nf, max_size=nf, unique=True)))
@@ -65,11 +75,17 @@ def model_spec(draw, models=MODELS, dims=(2, 2, 2, 3), simplex=False, max_fracs=
             "amp": draw(st.sampled_from([0.01, 0.1, 0.5])), "pseed": draw(st.integers(0, 2**31 - 1))}
 
 
-def model_class(name, dim, extra_mixins=()):
+def model_class(name, dim, extra_mixins=(), geom="default"):
     import porepy as pp
-    from porepy.applications.md_grids.model_geometries import OrthogonalFractures3d, RectangularDomainThreeFractures
+    from porepy.applications.md_grids.model_geometries import (
+        NonMatchingSquareDomainOrthogonalFractures,
+        OrthogonalFractures3d,
+        RectangularDomainThreeFractures,
+    )
 
     geometry = RectangularDomainThreeFractures if dim == 2 else OrthogonalFractures3d
+    if geom == "nonmatching":
+        geometry = NonMatchingSquareDomainOrthogonalFractures
     physics = {"mass_balance": pp.SinglePhaseFlow, "energy": pp.MassAndEnergyBalance,
                "momentum_balance": pp.MomentumBalance, "poromechanics": pp.Poromechanics,
                "thermoporomechanics": pp.Thermoporomechanics}[name]
@@ -94,9 +110,12 @@ def build_model(spec, extra_mixins=(), extra_params=None):
         "folder_name": str(scratch_file("model_out")),
         "meshing_kwargs": {"file_name": str(scratch_file("model_mesh.msh"))},
     }
+    if spec.get("geom") == "nonmatching":
+        params.update(grid_type="cartesian", meshing_arguments={"cell_size": spec["cell_size"]},
+                      fracture_refinement_ratio=spec["frac_ratio"], interface_refinement_ratio=spec["intf_ratio"])
     if extra_params:
         params.update(extra_params)
-    m = model_class(spec["model"], spec["dim"], extra_mixins)(params)
+    m = model_class(spec["model"], spec["dim"], extra_mixins, spec.get("geom", "default"))(params)
     m.prepare_simulation()
     return m
 
@@ -120,4 +139,6 @@ def model_labels(spec, m):
             "cartesian" if spec["cartesian"] else "simplex", "compressible" if spec["compressible"] else "incompressible"]
     if m.mdg.num_subdomains() > 1 + len(spec["fracs"]):
         labs.append("intersection")
+    if spec.get("geom") == "nonmatching":
+        labs.append("nonmatching")
     return labs
